@@ -195,6 +195,7 @@ def stepSys (st : State) (toks : List String) : Option (Sys × String) :=
     match src.toNat?, dst.toNat? with
     | some src, some dst => let s := { s with blocked := s.blocked ++ [(src, dst)] }; some (s, render s "ok" [] [] n)
     | _, _ => none
+  | ["mark", _] => some (s, render s "-" [] [] n)
   | ["end"] => some ({}, "ended")
   | _ => none
 
